@@ -92,6 +92,31 @@ def spec (tg : String → Nat) (now0 : Nat) (ops : List Op) (outs : List (Option
   let (ok, evs) := sRun tg ops outs (SSt.init now0)
   ok && eventsOk evs
 
+/-! ### views taken while other goroutines remove and add (linearizability window)
+
+Every store method is one critical section, so a concurrent history is equivalent to some sequential
+one that respects real-time order.  For a `ViewProposals` call that overlaps removals `rem` (issued
+one by one, in order) and additions `add` (likewise), with `rds`/`ads` = how many removals/additions
+had RETURNED when the view began and `rse`/`ase` = how many had STARTED when it returned, every such
+sequential history gives a result that contains `required` and lies within `allowed`: -/
+
+def concRequired (init rem add : List Proposal) (rse ads : Nat) : List Proposal :=
+  init.filter (fun p => !(rem.take rse).any (fun r => r.workID == p.workID)) ++ add.take ads
+
+def concAllowed (init rem add : List Proposal) (rds ase : Nat) : List Proposal :=
+  init.filter (fun p => !(rem.take rds).any (fun r => r.workID == p.workID)) ++ add.take ase
+
+def concViewOk (required allowed out : List Proposal) : Bool :=
+  decide ((out.map (·.workID)).Nodup) && required.all (out.contains ·) && out.all (allowed.contains ·)
+
+def explainConcView (required allowed out : List Proposal) : String :=
+  if !decide ((out.map (·.workID)).Nodup) then "concurrent view: a proposal is returned twice"
+  else match required.find? (fun p => !out.contains p) with
+    | some p => s!"concurrent view: pending proposal {p.workID}, untouched by any removal that had started, is missing"
+    | none => match out.find? (fun p => !allowed.contains p) with
+      | some p => s!"concurrent view: returns {p.workID}, which was removed before the view began (or never added)"
+      | none => "ok"
+
 /-! ### explanation of a failure (for replay files) -/
 
 /-- `gone`: (type, work id) pairs surfaced in an outcome and not re-added since -/
